@@ -2,6 +2,7 @@ package main
 
 import (
 	"fmt"
+	"strings"
 	"go/token"
 	"go/types"
 
@@ -217,6 +218,28 @@ func (c *Check) keyedTagMatchesValue(compileTag *ssa.Function) {
 						return false
 					}
 					v = a
+				case *ssa.FreeVar:
+					// captured by a nested function literal: what the enclosing function bound
+					b := freeVarBinding(x)
+					if b == nil {
+						return false
+					}
+					v = b
+				case *ssa.UnOp:
+					// a captured variable read through its cell
+					if vals, simple := cellValues(x.X); simple && len(vals) == 1 {
+						v = vals[0]
+						continue
+					}
+					if fv, ok := x.X.(*ssa.FreeVar); ok {
+						if b := freeVarBinding(fv); b != nil {
+							if vals, simple := cellValues(b); simple && len(vals) == 1 {
+								v = vals[0]
+								continue
+							}
+						}
+					}
+					return false
 				default:
 					return false
 				}
@@ -256,11 +279,45 @@ func (c *Check) keyedTagMatchesValue(compileTag *ssa.Function) {
 			}
 			return false
 		}
+		var scope []*ssa.Function
+		inScope := map[*ssa.Function]bool{}
 		for _, h := range withHelpers(g, 2) {
+			forEachFuncAndAnon(h, func(a *ssa.Function) {
+				if !inScope[a] {
+					inScope[a] = true
+					scope = append(scope, a)
+				}
+			})
+		}
+		for _, h := range scope {
 			for _, b := range h.Blocks {
 				for _, ins := range b.Instrs {
 					cl, ok := ins.(*ssa.Call)
-					if !ok || cl.Call.StaticCallee() == nil || fnPkgPath(cl.Call.StaticCallee()) != "regexp" {
+					if !ok || cl.Call.StaticCallee() == nil {
+						continue
+					}
+					// the values handed to a library search together with the regexp's match
+					// method: slices.ContainsFunc(vals, rx.MatchString)
+					if fnPkgPath(cl.Call.StaticCallee()) == "slices" && len(cl.Call.Args) == 2 {
+						fns, _ := p.MG().funcValues(cl.Call.Args[1], map[ssa.Value]bool{})
+						isMatch := false
+						for _, fv := range fns {
+							if strings.Contains(fv.String(), "regexp.Regexp") && strings.Contains(fv.Name(), "MatchString") {
+								isMatch = true
+							}
+						}
+						if isMatch {
+							n++
+							key := fmt.Sprintf("keyed-match:%s#%d", fnName(g), n)
+							if isLooked(cl.Call.Args[0]) {
+								c.ok("C06-R8", key, p.relFile(cl.Pos()), "the keyed tag predicate matches the label's values", "the looked-up values are searched with the expression's MatchString")
+							} else {
+								c.bad("C06-R8", key, p.relFile(cl.Pos()), "the tag predicate restricted to a key searches "+describeValue(cl.Call.Args[0])+" instead of the values of that label")
+							}
+						}
+						continue
+					}
+					if fnPkgPath(cl.Call.StaticCallee()) != "regexp" {
 						continue
 					}
 					recv := cl.Call.StaticCallee().Signature.Recv()
@@ -400,4 +457,34 @@ func (c *Check) rangeBoundUnits() {
 	if n == 0 {
 		c.undecided("C06-R9", "bound-unit", p.relFile(f.Pos()), "no measurement.Scale call on a parsed bound and its unit found in parseTagFilterRange")
 	}
+}
+
+// freeVarBinding: the value the enclosing function bound to the free variable when it created
+// the function literal (nil when the literal is created at more than one place).
+func freeVarBinding(fv *ssa.FreeVar) ssa.Value {
+	fn := fv.Parent()
+	par := fn.Parent()
+	if par == nil {
+		return nil
+	}
+	idx := -1
+	for i, q := range fn.FreeVars {
+		if q == fv {
+			idx = i
+		}
+	}
+	var out ssa.Value
+	n := 0
+	for _, b := range par.Blocks {
+		for _, ins := range b.Instrs {
+			if mc, ok := ins.(*ssa.MakeClosure); ok && mc.Fn == ssa.Value(fn) && idx >= 0 && idx < len(mc.Bindings) {
+				out = mc.Bindings[idx]
+				n++
+			}
+		}
+	}
+	if n != 1 {
+		return nil
+	}
+	return out
 }
